@@ -2,7 +2,7 @@
    Print Assumptions.  [reachable c s]: s is reached from the empty queue by ANY finite sequence of atomic
    sections (labels) of any number of producers, consumers, completions, cancellations and a shutdown —
    i.e. every interleaving; sizes are arbitrary integers (in-memory) / arbitrary non-negative (persistent). *)
-From Verif Require Import Common.Base C02.Model C02.Proofs C02.Proofs2 C02.Proofs3 C02.Proofs4 C02.Proofs5.
+From Verif Require Import Common.Base C02.Model C02.Proofs C02.Proofs2 C02.Proofs3 C02.Proofs4 C02.Proofs5 C02.Proofs6 C02.Proofs7.
 Local Open Scope Z_scope.
 
 (* --- reported size -------------------------------------------------------------------------------------- *)
@@ -189,6 +189,66 @@ Theorem awaiting_producer_is_tracked : forall c s p,
   exists e, lock s = BSend (PendRes p e).
 Proof. exact (fun c s p Hc R => reach_awaitinv c s Hc R p). Qed.
 
+(* --- round 3 ---------------------------------------------------------------------------------------------------- *)
+(* THE IFF.  In a quiescent reachable state somebody is still inside Offer exactly when the state has the F3 shape
+   or the S1 shape (Model.f3_shape / s1_shape); the S1 shape needs an oversized Offer to a persistent queue somewhere
+   in the history; the F3 shape always contains a cancelled producer that never gets its context error. *)
+Theorem no_lost_wakeup_iff : forall c ls s,
+  0 <= cap c -> Forall (wf_label c) ls -> run c init ls = Some s -> quiescent c s ->
+  (stuck s <-> f3_shape s \/ s1_shape s) /\
+  (s1_shape s -> Exists (fun l => ~ fit_label c l) ls) /\
+  (f3_shape s -> exists p sz, pget p (prods s) = Some (PLeftCtx sz) /\ In p (cancelled s)).
+Proof. exact no_lost_wakeup_iff_l. Qed.
+
+(* RANKING FUNCTION.  Every internal step (blocked producers, consumers, completions) of a running queue strictly
+   decreases the natural-number measure Model.mu, so any run of internal labels from s has at most mu s steps:
+   the queue's own activity always terminates (no fairness needed for that). *)
+Theorem internal_step_decreases_measure : forall c s l s' z,
+  reachable c s -> stopped s = false -> internal l = true -> step c s l = Some (s', z) ->
+  0 <= mu s' < mu s.
+Proof.
+  exact (fun c s l s' z R St Hi H =>
+           conj (mu_nonneg s') (mu_decreases c s l s' z (reach_tokinv _ c s R) St Hi H)).
+Qed.
+
+(* RELEASED WHEN SPACE (eventuality).  S1-free reachable state of a running queue; only the queue's own threads move.
+   (a) at most mu s steps are possible; (b) if the state reached is quiescent (a weakly fair run must get there,
+   by (a)), it is the F3 deadlock, or everybody has returned, the queue has drained and every producer that was
+   parked in s with a live context has been admitted, handed to a consumer and finished. *)
+Theorem released_when_space : forall c s ls s',
+  0 <= cap c -> reachable_fit c s -> stopped s = false ->
+  internal_run ls -> run c s ls = Some s' ->
+  Z.of_nat (length ls) <= mu s /\
+  (quiescent c s' ->
+     f3_shape s' \/
+     (all_returned s' /\ items s' = [] /\ inflight s' = [] /\ size s' = 0 /\ lock s' = Free /\
+      forall p sz, blocking c = true ->
+        pget p (prods s) = Some (PInSelect sz) \/ pget p (prods s) = Some (PLeftTok sz) ->
+        ~ In p (cancelled s) ->
+        In p (acc s') /\ In p (hand s') /\ In p (map fst (fin s')))).
+Proof. exact released_when_space_l. Qed.
+
+(* PROGRESS (constructive): while somebody is inside Offer and the mutex is free, an internal label is enabled and
+   leads strictly closer (so a weakly fair run cannot stop before quiescence). *)
+Theorem progress_while_stuck : forall c s,
+  0 <= cap c -> reachable_fit c s -> stopped s = false -> lock s = Free -> stuck s ->
+  exists l s' z, internal l = true /\ step c s l = Some (s', z) /\ mu s' < mu s.
+Proof. exact progress_l. Qed.
+
+(* POOL SAFETY (blockingDonePool, sync.Pool semantics: Get returns any pooled object or a new one).  Two live
+   requests never share a blockingDone, a pooled object is referenced by no request, every queued / in-flight
+   request of the in-memory queue and every producer waiting for its result has an object of its own: an object is
+   re-pooled only after nobody can use it any more.  This is what justifies keying results and sizes by request. *)
+Theorem pool_objects_unshared : forall c s,
+  0 <= cap c -> reachable c s ->
+  NoDup (map snd (held s)) /\ NoDup (map fst (held s)) /\ NoDup (pool s) /\
+  (forall b, In b (pool s) -> ~ In b (map snd (held s))) /\
+  (kind c = Mem -> forall id, In id (map fst (items s)) \/ In id (map fst (inflight s)) ->
+     exists b, hget id (held s) = Some b) /\
+  (forall p, pget p (prods s) = Some PAwait -> exists b, hget p (held s) = Some b) /\
+  (forall p b s' z, step c s (LObj p b) = Some (s', z) -> hget p (held s) = Some b /\ s' = s).
+Proof. exact pool_objects_unshared_l. Qed.
+
 Print Assumptions mq_size_exact.
 Print Assumptions pq_size_bounds.
 Print Assumptions offer_refused_iff.
@@ -207,3 +267,8 @@ Print Assumptions blocked_on_empty_queue_refuted.
 Print Assumptions released_when_space_partial.
 Print Assumptions wait_for_result_own_outcome.
 Print Assumptions awaiting_producer_is_tracked.
+Print Assumptions no_lost_wakeup_iff.
+Print Assumptions internal_step_decreases_measure.
+Print Assumptions released_when_space.
+Print Assumptions progress_while_stuck.
+Print Assumptions pool_objects_unshared.
